@@ -105,6 +105,9 @@ def make_subject(kind, seed):
     if kind.startswith("multivariate:"):
         n, m = (int(x) for x in kind.split(":")[1].split("x"))
         return MultivariateFunctionalData([dense1(n, m), dense1(n, m + 1)])
+    if kind.startswith("multivariate3"):
+        n, m = (int(x) for x in kind.split(":")[1].split("x")) if ":" in kind else (5, 7)
+        return MultivariateFunctionalData([dense1(n, m), dense1(n, m - 1), dense1(n, m + 1)])
     if kind == "dense1d":
         return dense1(5, (6, 7, 9)[seed % 3])
     if kind == "dense2d":
@@ -165,12 +168,14 @@ ARGS = {
     ("basis", "standardize"): [{}, {"center": False}],
     ("basis", "concatenate"): [{"@static": ["@self", "@other"]}],
     ("multivariate", "center"): [{}, {"method_smoothing": "LP"}],
-    ("multivariate", "mean"): [{}, {"method_smoothing": "PS"}],
+    ("multivariate", "mean"): [{}, {"method_smoothing": "PS"}, {"points": "@pointslist"}, {"points": "@pointslist", "method_smoothing": "LP", "bandwidth": 0.5}],
+    ("multivariate", "covariance"): [{}, {"points": "@pointslist"}],
     ("multivariate", "inner_product"): [{}, {"noise_variance": "@nv2"}],
     ("multivariate", "norm"): [{}, {"squared": True}],
     ("multivariate", "rescale"): [{}, {"weights": "@w2"}],
     ("multivariate", "standardize"): [{}, {"center": False}],
-    ("multivariate", "smooth"): [{}, {"method": "LP", "bandwidth": 0.5}],
+    ("multivariate", "smooth"): [{}, {"method": "LP", "bandwidth": 0.5}, {"points": "@pointslist"}, {"method": "LP", "bandwidth": [0.5, 0.4]},
+                                 {"method": "PS", "penalty": [1.0, 2.0]}],
     ("multivariate", "concatenate"): [{"@static": ["@self", "@other"]}],
     ("dense1d", "__getitem__"): [{"@pos": ["@int:1"]}, {"@pos": ["@slice:1:3"]}, {"@pos": ["@idx:0,2"]}],
     ("dense2d", "__getitem__"): [{"@pos": ["@int:1"]}, {"@pos": ["@slice:0:2"]}, {"@pos": ["@idx:0,2"]}],
@@ -249,7 +254,7 @@ def _class_of(kind):
     import FDApy.representation.functional_data as fd
 
     return {"dense1d": fd.DenseFunctionalData, "dense2d": fd.DenseFunctionalData, "irregular": fd.IrregularFunctionalData,
-            "basis": fd.BasisFunctionalData, "multivariate": fd.MultivariateFunctionalData}[kind.split(":")[0]]
+            "basis": fd.BasisFunctionalData, "multivariate": fd.MultivariateFunctionalData, "multivariate3": fd.MultivariateFunctionalData}[kind.split(":")[0]]
 
 
 SIZE_THRESHOLDS = {"quick": [129, 257, 385, 513], "thorough": [33, 65, 129, 201, 257, 385, 513, 1025]}
@@ -298,6 +303,10 @@ def _resolve(kind, seed, subject, spec):
                 return a
             if v == "@comp0":
                 return subject.data[0]
+            if v == "@pointslist":
+                pl = [type(c_.argvals)({k_: np.array(a_, copy=True) for k_, a_ in c_.argvals.items()}) for c_ in subject.data]
+                extra.append(("points", pl))
+                return pl
             if v.startswith("@int:"):
                 return int(v[5:])
             if v.startswith("@slice:"):
@@ -412,7 +421,9 @@ def gen_estimator_cases(rng: Rng, tier):
     for s in range(n):
         seed = rng.randint(0, 10**6)
         for est in ("ufpca_cov", "ufpca_inpro", "ufpca_2d", "ufpca_cov_big", "ufpca_inpro_big", "ufpca_pace", "ufpca_pace_irregular",
-                    "ufpca_cov_norm", "ufpca_inpro_norm", "mfpca_cov_norm", "mfpca_inpro_norm", "mfpca_cov", "mfpca_inpro", "mfpca_pace", "fcptpa", "psplines1", "psplines2", "localpoly"):
+                    "ufpca_cov_norm", "ufpca_inpro_norm", "mfpca_cov_norm", "mfpca_inpro_norm",
+                    "mfpca_cov_points_none", "mfpca_cov_points_mixed", "mfpca_inpro_points_none", "mfpca_inpro_points_mixed",
+                    "mfpca_cov_fewer1", "mfpca_cov_fewer0", "mfpca3_cov_fewer2", "ufpca_cov_points", "mfpca_cov", "mfpca_inpro", "mfpca_pace", "fcptpa", "psplines1", "psplines2", "localpoly"):
             yield dict(kind="est", est=est, seed=seed)
     # size thresholds for the fits (eigen-solvers and blocked loops may switch algorithm above a size)
     seed = rng.randint(0, 10**6)
@@ -697,6 +708,40 @@ def _est_setup(est, seed):
         steps = [("fit", lambda e, c: e.fit(c["data"])), ("transform", lambda e, c: e.transform(method="InnPro")),
                  ("inverse_transform", lambda e, c: e.inverse_transform(c["scores"]))]
         return mk, dict(data=data), steps, "UFPCA"
+    if est == "ufpca_cov_points":
+        from FDApy.representation.argvals import DenseArgvals
+
+        data = make_subject("dense1d", seed)
+        pts = DenseArgvals({"input_dim_0": np.linspace(float(data.argvals["input_dim_0"][0]), float(data.argvals["input_dim_0"][-1]), 6)})
+        mk = lambda: UFPCA(n_components=2, method="covariance")  # noqa: E731
+        steps = [("fit", lambda e, c: e.fit(c["data"], points=c["points"], method_smoothing="LP")),
+                 ("transform", lambda e, c: e.transform(c["data"], method="NumInt")), ("inverse_transform", lambda e, c: e.inverse_transform(c["scores"]))]
+        return mk, dict(data=data, points=pts), steps, "UFPCA"
+    if est.startswith("mfpca") and ("_points_" in est or "_fewer" in est):
+        # container arguments: a `points` LIST (with None entries) given by the caller, a configuration list
+        # with fewer entries than components — all are inputs: snapshotted, and reused on other data
+        three = est.startswith("mfpca3")
+        data = make_subject("multivariate3" if three else "multivariate", seed)
+        method = "inner-product" if "_inpro_" in est else "covariance"
+        n_given = {"fewer0": 0, "fewer1": 1, "fewer2": 2}.get(est.split("_")[-1], 3 if three else 2)
+        exps = [{"method": "UFPCA", "n_components": 2} for _ in range(n_given)]
+        ctx = dict(data=data, config=exps, alt=dict(data=make_subject("multivariate3:6x9" if three else "multivariate:6x9", seed)))
+        if "_points_" in est:
+            grid = data.data[1].argvals
+            ctx["points"] = [None, None] if est.endswith("none") else [None, type(grid)({k: np.array(v, copy=True) for k, v in grid.items()})]
+            fit = lambda e, c: e.fit(c["data"], points=c["points"], method_smoothing=None)  # noqa: E731
+        else:
+            fit = lambda e, c: e.fit(c["data"], method_smoothing=None)  # noqa: E731
+        if method == "covariance":
+            mk = lambda: MFPCA(n_components=2, method="covariance", univariate_expansions=exps)  # noqa: E731
+            steps = [("fit", fit), ("transform", lambda e, c: e.transform(c["data"], method="NumInt")),
+                     ("inverse_transform", lambda e, c: e.inverse_transform(c["scores"]))]
+        else:
+            mk = lambda: MFPCA(n_components=2, method="inner-product")  # noqa: E731
+            steps = [("fit", fit), ("transform", lambda e, c: e.transform(method="InnPro")),
+                     ("inverse_transform", lambda e, c: e.inverse_transform(c["scores"]))]
+            ctx.pop("config")
+        return mk, ctx, steps, "MFPCA"
     if est in ("mfpca_cov", "mfpca_inpro", "mfpca_pace", "mfpca_cov_norm", "mfpca_inpro_norm"):
         data = make_subject("multivariate", seed)
         exps = [{"method": "UFPCA", "n_components": 2}, {"method": "UFPCA", "n_components": 2}]
@@ -861,7 +906,10 @@ def _est(case):
     mk, ctx, steps, cls = _est_setup(est, seed)
     viol = []
     U.poison("nan")
+    import copy as _copy
+
     alt = ctx.pop("alt", None)
+    pristine_containers = {k: _copy.deepcopy(v) for k, v in ctx.items() if isinstance(v, (list, dict))}
     snap_ctx0 = {k: U.deep(v) for k, v in ctx.items()}
     heap0 = U.heap_spec([("s", [ctx["config"]])]) if ("config" in ctx and est == "mfpca_cov") else None
     e = mk()
@@ -897,7 +945,7 @@ def _est(case):
         for k, v in ctx.items():
             d = U.diff_paths(before_ctx[k], U.deep(v))
             if d:
-                what = "the user-supplied configuration" if k == "config" else f"its input `{k}`"
+                what = "the user-supplied configuration" if k == "config" else (f"the {type(v).__name__} the caller passed as `{k}`" if isinstance(v, (list, dict)) else f"its input `{k}`")
                 viol.append(_viol("config_unchanged" if k == "config" else "inputs_unchanged", entry, f"{name} changed {what} at {d[:3]}", ["config_consumed" if k == "config" else "input_mutated"]))
         cfg = _config_of(e)
         if name != "fit":
@@ -945,6 +993,15 @@ def _est(case):
                 for (en, er, es) in earlier:
                     if U.diff_paths(es, U.deep(er, skip_cache=True)):
                         viol.append(_viol("earlier_results_unchanged", entry, f"a repeated {name} changed the result returned earlier by {en}", ["result_mutated"]))
+    if steps[0][0] == "fit" and recs and recs[0]["status"] != "ok" and recs[0]["status"].split(":")[1] not in ("ValueError", "TypeError", "NotImplementedError"):
+        # not a documented rejection of the arguments but an internal error of the fit
+        viol.append(_viol("runs", f"{cls}.fit", f"fit raised {recs[0]['status']} ({recs[0]['msg']}) on a valid configuration", ["internal_error"]))
+    if steps[0][0] == "fit" and recs and recs[0]["status"] != "ok":
+        # the fit is rejected (e.g. no univariate expansion at all): nothing to repeat; inputs / configuration were compared above
+        out = dict(recs=recs, viol=_dedupe(viol))
+        if heap0 is not None:
+            out["heap"], out["roots"] = heap0
+        return out
     # (d) whole sequence again on a fresh estimator, and refit of the same estimator
     U.poison("big")
     sized = "@" in est
@@ -981,20 +1038,31 @@ def _est(case):
     # refit on OTHER (richer) data: the estimator fitted before must end up like a fresh estimator
     # with the same configuration fitted on those data (no state or configuration carried over)
     if steps[0][0] == "fit" and alt is not None:
-        ctx2 = dict(ctx)
-        ctx2.update(alt)
-        ctx2["scores"] = None
+        import copy
+
+        def fresh_ctx():
+            """the arguments as the user wrote them: list / dict arguments are fresh copies of the pristine ones"""
+            c = dict(ctx)
+            for k_, v_ in pristine_containers.items():
+                if k_ != "config":
+                    c[k_] = copy.deepcopy(v_)
+            c["scores"] = None
+            return c
+
         try:
             np.random.seed(777)
             ea = mk()
-            steps[0][1](ea, dict(ctx2))          # fresh estimator, other data
+            ca = fresh_ctx()
+            ca.update(alt)
+            steps[0][1](ea, ca)                  # fresh estimator, fresh arguments, other data
             np.random.seed(777)
             eb = mk()
-            cb = dict(ctx)
-            cb["scores"] = None
+            cb = fresh_ctx()
             steps[0][1](eb, cb)                  # first the original data …
             np.random.seed(777)
-            steps[0][1](eb, dict(ctx2))          # … then refit on the other data
+            cb2 = dict(cb)                       # … then refit on the other data, RE-USING the same list / dict arguments
+            cb2.update(alt)
+            steps[0][1](eb, cb2)
             da = _nocache(U.deep({k: v for k, v in ea.__dict__.items()}, skip_cache=True))
             db = _nocache(U.deep({k: v for k, v in eb.__dict__.items()}, skip_cache=True))
             d = U.diff_paths(da, db)
